@@ -41,7 +41,8 @@ def execute(gi, n, X, cfg, path):
                 results.append(lst)
     else:
         try:
-            res = S.run_full(g, tags, deps, unary_penalty=pen, pruning_size=pruning, use_beta=use_beta, beta=beta, nbest=nbest,
+            docs = []
+            res = S.run_full(g, tags, deps, docs_out=docs, unary_penalty=pen, pruning_size=pruning, use_beta=use_beta, beta=beta, nbest=nbest,
                              max_step=cfg.get('max_step', 10000000))
         except Exception as e:
             return g, derivs, None, dict(error=repr(e))
@@ -60,6 +61,9 @@ def execute(gi, n, X, cfg, path):
                     continue
                 try:
                     t = S.canon_tree(item[0])
+                    doc = docs[len(results)]
+                    if len(item[0].leaves) == len(doc) and not all(l.token is tk for l, tk in zip(item[0].leaves, doc)):
+                        problems.append('a leaf does not carry the input token object of its position')
                 except Exception as e:
                     lst.append((None, None, [f'returned tree is malformed: {e!r}']))
                     continue
